@@ -107,6 +107,9 @@ def _locate(fns, line):
             for a in e['arms']:
                 if a['line_start'] <= line <= a['line_end']:
                     arm = arm_label(a['pat'])
+                    for sa in a.get('sub', []):
+                        if sa['line_start'] <= line <= sa['line_end']:
+                            arm = arm + '/' + arm_label(sa['pat'])
             return fname, arm
     return None, None
 
@@ -117,7 +120,16 @@ def run_unit(unit, repo, scratch, features=None, rlimit=30, multiple_errors=4, t
     base = os.path.join(scratch, name.replace('@', '_').replace(',', '_'))
     out_rs = base + '.rs'
     try:
-        w = _verus_once(unit, repo, out_rs, scratch, features, rlimit, multiple_errors, extra=verus_args)
+        # pre-pass (no verification) to learn which arms carry an inner match: those are always verified
+        # one inner arm at a time (their joint query exceeds the resource limit even on the unchanged tree)
+        meta0 = extract.extract(unit, repo, out_rs, features)
+        presplit = {}
+        for fname, e in meta0['functions'].items():
+            for k, a in enumerate(e['arms']):
+                if a.get('sub'):
+                    presplit[(fname, k)] = len(a['sub'])
+        focus0 = dict(inner={key: set() for key in presplit}) if presplit else None
+        w = _verus_once(unit, repo, out_rs, scratch, features, rlimit, multiple_errors, focus=focus0, extra=verus_args)
     except LostAnchor as e:
         raise Undecided('lost-anchor in unit %s: %s' % (name, e))
     except FileNotFoundError as e:
@@ -178,15 +190,26 @@ def run_unit(unit, repo, scratch, features=None, rlimit=30, multiple_errors=4, t
 
     # arm splitting (DESIGN 8): one run per arm, all other arms pruned; the runs together cover every path
     split_runs = 0
-    if split_fns:
+    if split_fns or presplit:
         import concurrent.futures as cf
         jobs = []
         with cf.ThreadPoolExecutor(max_workers=split_workers) as ex:
             for fname in sorted(split_fns):
                 for k, arm in enumerate(fns[fname]['arms']):
                     o = '%s_split_%s_%d.rs' % (base, fname, k)
+                    fo = {fname: {k}}
+                    if (fname, k) in presplit:
+                        fo['inner'] = {(fname, k): set()}
                     jobs.append((fname, k, arm, o, ex.submit(
-                        _verus_once, unit, repo, o, scratch, features, rlimit, 2, {fname: {k}},
+                        _verus_once, unit, repo, o, scratch, features, rlimit, 2, fo,
+                        ['--verify-root', '--verify-function', fname])))
+            for (fname, k), nsub in sorted(presplit.items()):
+                for j in range(nsub):
+                    o = '%s_split_%s_%d_%d.rs' % (base, fname, k, j)
+                    fo = {fname: {k}, 'inner': {(fname, k): {j}}}
+                    arm = dict(pat=fns[fname]['arms'][k]['pat'] + ' / ' + fns[fname]['arms'][k]['sub'][j]['pat'])
+                    jobs.append((fname, k, arm, o, ex.submit(
+                        _verus_once, unit, repo, o, scratch, features, rlimit, 2, fo,
                         ['--verify-root', '--verify-function', fname])))
             for fname, k, arm, o, fut in jobs:
                 sw = fut.result()
@@ -220,6 +243,9 @@ def run_unit(unit, repo, scratch, features=None, rlimit=30, multiple_errors=4, t
         if e['arms']:
             for a in e['arms']:
                 obligations.append(dict(name='V:%s/%s/%s' % (unit, fname, arm_label(a['pat'])), fn=fname, arm=arm_label(a['pat'])))
+                for sa in a.get('sub', []):
+                    lab = arm_label(a['pat']) + '/' + arm_label(sa['pat'])
+                    obligations.append(dict(name='V:%s/%s/%s' % (unit, fname, lab), fn=fname, arm=lab))
             obligations.append(dict(name='V:%s/%s/-' % (unit, fname), fn=fname, arm=None))
         else:
             obligations.append(dict(name='V:%s/%s' % (unit, fname), fn=fname, arm=None))
